@@ -18,6 +18,7 @@
 package query
 
 import (
+	"fmt"
 	"sync"
 	"time"
 
@@ -115,7 +116,15 @@ func (sm *pipelineStateMachine) completeStage(stageID string, err error) {
 		s.stats.ErrMsg = errMsg
 		s.stats.Async = s.stage.IsAsync()
 
-		s.stage.Complete()
+		if hookErr := completeStageHook(s.stage); hookErr != nil {
+			// the stage's own completion work failed: the stage failed
+			if sm.err == nil {
+				sm.err = hookErr
+			}
+			s.state = trackerpkg.ErrorState
+			s.stats.State = s.state.String()
+			s.stats.ErrMsg = hookErr.Error()
+		}
 	}
 	sm.mutex.Unlock()
 
@@ -126,6 +135,18 @@ func (sm *pipelineStateMachine) completeStage(stageID string, err error) {
 		sm.mutex.Unlock()
 		sm.complete(firstErr)
 	}
+}
+
+// completeStageHook invokes the completion hook of a stage; a panic of the hook must not leave the state machine
+// locked(the panic handler of the stage comes back to completeStage), it is reported as the stage's failure.
+func completeStageHook(s stagepkg.Stage) (err error) {
+	defer func() {
+		if r := recover(); r != nil {
+			err = fmt.Errorf("panic when complete stage: %v", r)
+		}
+	}()
+	s.Complete()
+	return nil
 }
 
 // complete executes pipeline completed, invokes completed callback.
